@@ -71,7 +71,16 @@ struct IntrusiveQ : IBQueue {
     typedef ci::VyukovMPMCCycleQueue<item, idyn_traits> queue_t;
     std::unique_ptr<queue_t> q;
     std::vector<std::unique_ptr<item>> items;       // client-owned; each item is enqueued at most once
-    explicit IntrusiveQ( size_t cap ) : q( new queue_t( cap )) {}
+    explicit IntrusiveQ( size_t cap ) : q( new queue_t( cap ))
+    {
+        reg_name( &q->m_posEnqueue, sizeof( q->m_posEnqueue ), "posEnq" );
+        reg_name( &q->m_posDequeue, sizeof( q->m_posDequeue ), "posDeq" );
+        for ( size_t i = 0; i < q->capacity(); ++i ) {
+            char nm[32];
+            std::snprintf( nm, sizeof nm, "seq%zu", i );
+            reg_name( &q->m_buffer[i].sequence, sizeof( q->m_buffer[i].sequence ), nm );
+        }
+    }
     ~IntrusiveQ()
     {
         while ( q->dequeue()) {}        // unlink without disposing
@@ -105,6 +114,9 @@ struct Fixture {
     std::string failure;
     bool sc = false;
     size_t cap = 0;
+    size_t rot_used = 0;
+    // configuration the Lean machine Algo/Vyukov needs to start from the same state (tie A)
+    std::string header_extra() const { return "cap=" + std::to_string( cap ) + " rot=" + std::to_string( rot_used ); }
 
     explicit Fixture( Case const& c )
     {
@@ -126,6 +138,7 @@ struct Fixture {
         // empty with posEnqueue == posDequeue == rot, so that the scheduled program wraps around the
         // buffer at varying offsets (0 .. 2*cap).
         size_t rot = size_t( rotsel % ( 2 * cap + 1 ));
+        rot_used = rot;
         for ( size_t i = 0; i < rot; ++i ) {
             long x = 0;
             if ( !s->enq( -long( i ) - 1 ) || !s->deq( x ) || x != -long( i ) - 1 ) {
